@@ -59,8 +59,11 @@ class Session:
     def __init__(self):
         self.es, self.e3 = _mods()
         self.current = []
-        self.es.comports = lambda: iter(list(self.current))
-        self.e3.comports = lambda: iter(list(self.current))
+        fake = lambda *a, **k: iter(list(self.current))  # noqa: E731
+        self.es.comports = fake
+        self.e3.comports = fake
+        import serial.tools.list_ports as lp          # also the origin, in case a layer stops importing the name
+        lp.comports = fake
         self.obj = self.e3.EBB3()
 
     def event(self, ports, abstract=None, extra_needles=()):
